@@ -5,10 +5,17 @@ import sys
 import threading
 import uuid
 import weakref
+from decimal import Decimal
+from enum import Enum
+from fractions import Fraction
 from functools import partial
 from hashlib import sha256
 from itertools import count
 from os.path import dirname
+from pathlib import PurePath
+from types import BuiltinMethodType
+from types import MethodType
+from types import MethodWrapperType
 from types import ModuleType
 from typing import TYPE_CHECKING
 from typing import Any
@@ -68,9 +75,11 @@ _PROCESS_TOKEN = uuid.uuid4().hex
 
 def _new_process_token() -> None:
     # (a forked child creates objects of its own at addresses that its
-    # siblings use for theirs)
-    global _PROCESS_TOKEN
+    # siblings use for theirs - and a thread of the parent may have held
+    # the lock at the moment of the fork)
+    global _PROCESS_TOKEN, _identities_lock
     _PROCESS_TOKEN = uuid.uuid4().hex
+    _identities_lock = threading.RLock()
 
 
 if hasattr(os, 'register_at_fork'):
@@ -81,7 +90,7 @@ if hasattr(os, 'register_at_fork'):
 # address would not do, because the next object may be put where a dead
 # one was.
 _identities: dict[int, tuple[int, Any]] = {}
-_identities_lock = threading.Lock()
+_identities_lock = threading.RLock()
 _identities_count = count(1)
 
 
@@ -98,13 +107,14 @@ def _identity(value: Any) -> str:
                 if entry is not None and entry[1] is ref:
                     del _identities[key]
 
-            ref: Any
             try:
                 ref = weakref.ref(value, forget)
             except TypeError:
-                # (kept alive, then: nothing else ever gets its address)
-                def ref(value: Any = value) -> Any:
-                    return value
+                # It cannot be watched, and keeping it alive would be a
+                # leak: a number of its own at every call, then (nothing
+                # is ever shared on its account).
+                return "{}:{}".format(
+                    _PROCESS_TOKEN, next(_identities_count))
             entry = _identities[key] = (next(_identities_count), ref)
     return "{}:{}".format(_PROCESS_TOKEN, entry[0])
 
@@ -118,9 +128,21 @@ def _is_named(value: Any, module: str, name: str) -> bool:
     for part in name.split('.'):
         try:
             found = getattr(found, part)
-        except AttributeError:
+        except Exception:
+            # (the way there may lead through code of the application:
+            # a descriptor, a module's or a metaclass's ``__getattr__``)
             return False
     return found is value
+
+
+def _type_name(value: Any) -> str:
+    cls = type(value)
+    return "{}.{}".format(
+        getattr(cls, '__module__', None), getattr(cls, '__qualname__', None))
+
+
+# Immutable values that print as what they are.
+_VALUE_TYPES = (bytes, complex, range, Decimal, Fraction, Enum, PurePath)
 
 
 def _stable_repr(value: Any) -> str:
@@ -137,17 +159,30 @@ def _stable_repr(value: Any) -> str:
             (_stable_repr(key), _stable_repr(item))
             for key, item in value.items()
         ))
+    if isinstance(value, _VALUE_TYPES):
+        return "{}:{!r}".format(_type_name(value), value)
+    if isinstance(value, ModuleType):
+        return "module {}".format(value.__name__)
     module = getattr(value, '__module__', None)
     name = getattr(value, '__qualname__', getattr(value, '__name__', None))
     if module is None:
         # (a method of a built-in type, looked up on the type)
         module = getattr(
             getattr(value, '__objclass__', None), '__module__', None)
-    bound_to = getattr(value, '__self__', None)
-    if bound_to is not None and not isinstance(bound_to, ModuleType) \
+    if isinstance(value, (MethodType, BuiltinMethodType, MethodWrapperType)) \
             and isinstance(name, str):
-        # A method of some object: what it does depends on that object.
-        return "{}.{}".format(_stable_repr(bound_to), name)
+        bound_to = value.__self__
+        if bound_to is not None and not isinstance(bound_to, ModuleType):
+            # A method of some object: what it does depends on that
+            # object - a class (by its name), a plain value, or else
+            # that very instance, whatever it holds or prints as.
+            if isinstance(bound_to, type) or isinstance(
+                    bound_to, (bool, int, float, str, bytes)):
+                owner = _stable_repr(bound_to)
+            else:
+                owner = "{}@{}".format(
+                    _type_name(bound_to), _identity(bound_to))
+            return "{}.{}".format(owner, name)
     if isinstance(module, str) and isinstance(name, str):
         if not _is_named(value, module, name):
             # Made by a function (or by ``type()``), or anonymous: the
@@ -155,9 +190,7 @@ def _stable_repr(value: Any) -> str:
             # factory have the same), only the object itself does.
             return "{}.{}@{}".format(module, name, _identity(value))
         return "{}.{}".format(module, name)
-    if isinstance(value, bytes):
-        return repr(value)
-    if isinstance(value, partial):
+    if type(value) is partial:
         # (positional arguments in their order)
         return "partial({}, [{}], {})".format(
             _stable_repr(value.func),
@@ -167,7 +200,7 @@ def _stable_repr(value: Any) -> str:
     # not tell it from another one - a default representation carries an
     # address, which is no more than a hint at which object it is, and
     # any other may leave out what the instance was configured with.
-    return "{}@{}".format(repr(value), _identity(value))
+    return "{}@{}".format(_type_name(value), _identity(value))
 
 
 class PageTemplate(BaseTemplate):
@@ -503,7 +536,12 @@ class PageTemplate(BaseTemplate):
             'tokenizer',
             'expression_types',
         ):
-            v = _stable_repr(getattr(self, attr))
+            value = getattr(self, attr)
+            if getattr(value, '__self__', None) is self:
+                # (a method of this very template - of its class, which
+                # is part of the key already)
+                value = getattr(value, '__func__', value)
+            v = _stable_repr(value)
             digest.update(
                 (";{}={}".format(attr, v)).encode('utf-8')
             )
